@@ -94,6 +94,11 @@ def pushByte (acc : St × Log) (b : Byte) : St × Log :=
 
 def bytewise (st : St) (bs : List Byte) : St × Log := bs.foldl pushByte (st, [])
 
+/-- `first \n l₁ \n l₂ … \n lₙ` -/
+def joinNl : List Byte → List (List Byte) → List Byte
+  | first, [] => first
+  | first, l :: ls => first ++ 10 :: joinNl l ls
+
 /-- the buffer never holds more bytes than it has been given -/
 def Inv (st : St) : Prop := st.leftover.length ≤ st.off
 
